@@ -136,6 +136,7 @@ WRAP:
 			added = true
 			t = time.Date(t.Year(), t.Month(), t.Day(), 0, 0, 0, 0, loc)
 		}
+		prev := t
 		t = t.AddDate(0, 0, 1)
 		// Notice if the hour is no longer midnight due to DST.
 		// Add an hour if it's 23, subtract an hour if it's 1.
@@ -145,6 +146,14 @@ WRAP:
 			} else {
 				t = t.Add(time.Duration(-t.Hour()) * time.Hour)
 			}
+		}
+		// A zone may skip a whole calendar day (e.g. Pacific/Apia has no
+		// 2011-12-30). The date computed above then does not exist and is
+		// normalized to an instant that is not later than the day we came
+		// from, which would repeat this step forever. Advance to the first
+		// following calendar day that does exist.
+		for n := 2; !t.After(prev); n++ {
+			t = time.Date(prev.Year(), prev.Month(), prev.Day()+n, 0, 0, 0, 0, loc)
 		}
 
 		if t.Day() == 1 {
